@@ -2,13 +2,21 @@
 (* Cross-use between two spellings of a Host that route to different         *)
 (* upstreams (simple route for the exact name, case-insensitive rewrite      *)
 (* route for its variants): C13's "a session obtained for one upstream host  *)
-(* is never accepted on another", judged on observed probes.                 *)
+(* is never accepted on another", judged on observed probes; and probes of   *)
+(* the order among rewrite routes whose matches begin at different offsets.  *)
 EXTENDS Integers, Sequences, TLC, Json, IOUtils
 Trace == ndJsonDeserialize(IOEnv.VERIF_TRACE)
 VARIABLE l
 Init == l = 1 /\ TLCSet(1, 1)
 \* a session bound to a Host that routes to another upstream must not get the request to any backend
-Viol(r) == IF ~r.sameup /\ r.reached # "none" THEN {"C13_NoCrossUse"} ELSE {}
+\* "otherwise the first rewrite route whose pattern matches, in the order the configuration resolves them": two
+\* rewrite routes match the Host (one anchored only at its end, one catch-all); the one listed first handles it,
+\* with its provider and its backend
+Viol(r) ==
+   IF r.ev = "order"
+   THEN (IF r.reached # r.first THEN {"C13_FirstMatchingRewriteWins"} ELSE {})
+        \cup (IF r.slugof # r.first THEN {"C13_RightProvider"} ELSE {})
+   ELSE IF ~r.sameup /\ r.reached # "none" THEN {"C13_NoCrossUse"} ELSE {}
 Step == /\ l <= Len(Trace)
         /\ \A v \in Viol(Trace[l]) : PrintT(<<"VIOL", l, {v}>>)
         /\ l' = l + 1
